@@ -342,8 +342,15 @@ impl<S: WebSocket, T: TimestampProvider> Task<S, T> {
                 // ws.flush().await.ok();
             }
         }
-        // This will flush the remaining frames already queued for sending as well
-        poll_fn(|cx| self.ws.lock().poll_close_unpin(cx)).await.ok();
+        // This will flush the remaining frames already queued for sending as well.
+        // If we got here because of an error, the peer may never read again, and a close that
+        // has to wait for the sink to drain would wait forever: try it, but do not wait for it.
+        let close = poll_fn(|cx| self.ws.lock().poll_close_unpin(cx));
+        if await_peer_close {
+            close.await.ok();
+        } else {
+            close.now_or_never();
+        }
         // The above line only closes the `Sink`. Before we terminate connections,
         // we dispatch the remaining frames in the `Source` to our streams.
         // If we got here because of an error, the peer may be gone for good: take only what
